@@ -90,7 +90,8 @@ def simulate(chk, shape, pend=0, max_polls=60, pair=False):
                     return cell, path, tgt
                 v = ex_.materialize(tgt)
             elif isinstance(v, Adt) and v.discr is not None:
-                if z3.simplify(M.discr(ex_, v)).as_long() != 1:
+                d_ = z3.simplify(M.discr(ex_, v))
+                if (not z3.is_bv_value(d_) and not ex_.branch(d_ == bv(1))) or (z3.is_bv_value(d_) and d_.as_long() != 1):
                     return None, None, None
                 v = ex_.materialize(ex_.field_of(v, 1, 0, '&mut W'))
             else:
@@ -99,10 +100,10 @@ def simulate(chk, shape, pend=0, max_polls=60, pair=False):
             return None, None, v
         return None, None, None
 
-    def callback(ex_, what, wref, extra=None):
+    def callback(ex_, what, wref, extra=None, scn=None):
         cell, path, w = world_of(ex_, wref) if wref is not None else (None, None, None)
         k = pick(ex_, kindv[what], 3)
-        M.log(ex_, 'called', what=what, world=(w.id if w is not None else None), counter=(w.counter if w is not None else None), extra=extra, how=KINDS[k])
+        M.log(ex_, 'called', what=what, world=(w.id if w is not None else None), counter=(w.counter if w is not None else None), extra=extra, how=KINDS[k], scn=scn)
         if KINDS[k] == 'eager_panic':
             raise UserPanic(what, 'call')
 
@@ -116,19 +117,26 @@ def simulate(chk, shape, pend=0, max_polls=60, pair=False):
             ex_.env['after_hook_done_clock'] = M.tick(ex_)
         return M.user_future(what, pend, KINDS[k], on_done=done)
 
+    def scn_name(ex_, v):
+        v = ex_.materialize(v)
+        for _ in range(4):
+            if isinstance(v, Ref):
+                v = ex_.materialize(ex_.read_path(v.cell, v.path))
+        return getattr(v, 'name', None)
+
     def opaque(ex_, f, args, dty, info):
         tgt = f
         if isinstance(tgt, Obj) and tgt.kind == 'stepfn':
             return callback(ex_, tgt.step, args[0])
         nm = tgt.name if isinstance(tgt, (Lazy, Adt)) else None
         if nm and nm.endswith('before_fn'):
-            return callback(ex_, 'before', args[3])
+            return callback(ex_, 'before', args[3], scn=scn_name(ex_, args[2]))
         if nm and nm.endswith('after_fn'):
             fin = ex_.materialize(ex_.materialize(args[3]))
             if isinstance(fin, Ref):
                 fin = ex_.materialize(ex_.read_path(fin.cell, fin.path))
             reason = z3.simplify(M.discr(ex_, fin)).as_long()
-            return callback(ex_, 'after', args[4], extra=reason)
+            return callback(ex_, 'after', args[4], extra=reason, scn=scn_name(ex_, args[2]))
         raise Inconclusive('opaque call of %r' % (tgt,))
     M.opaque_fn_hook = opaque
 
@@ -181,8 +189,9 @@ def simulate(chk, shape, pend=0, max_polls=60, pair=False):
             (None, EX.index('before_hook')): Adt('Option<Before>', {(1, 0): Lazy('Before', 'before_fn')}, 1 if shape.before else 0),
             (None, EX.index('after_hook')): Adt('Option<After>', {(1, 0): Lazy('After', 'after_fn')}, 1 if shape.after else 0),
             (None, EX.index('event_sender')): Lazy('UnboundedSender', 'event_sender'),
-            (None, EX.index('finished_sender')): Lazy('UnboundedSender', 'finished_sender'),
             (None, EX.index('storage')): fv})
+        if 'finished_sender' in EX:
+            exv = exv.with_field((None, EX.index('finished_sender')), Lazy('UnboundedSender', 'finished_sender'))
         # fields a change adds to Executor: what its constructor would put there (known containers), else unconstrained
         from mirsmt import tables as _T
         eft = _T.field_types(prog.tables, 'Executor', 'runner/basic.rs') or {}
@@ -237,6 +246,10 @@ def simulate(chk, shape, pend=0, max_polls=60, pair=False):
                     r = ex_.call_body(body, [pn, cx])
                     if ex_.branch(M.discr(ex_, r) == bv(0)):
                         live.remove(pn)
+                        # an attempt may report how it ended as the value of its future instead of sending a notification
+                        rv_ = ex_.materialize(ex_.field_of(ex_.materialize(r), 0, 0, '?'))
+                        if isinstance(rv_, Adt) and rv_.discr is None and (None, 4) in rv_.fields:
+                            M.log(ex_, 'returned_outcome', value=rv_)
             if live:
                 raise PathEnd('loopbound', 'run_scenario not Ready after %d polls' % polls)
         except UserPanic as p:
@@ -295,7 +308,7 @@ def timeline(ex, M, ix, log):
     for e in log:
         k = e['kind']
         if k == 'called':
-            tl.append(('call', e['what'], e['world'], e['counter'], e['extra'], e['how']))
+            tl.append(('call', e['what'], e['world'], e['counter'], e['extra'], e['how'], e.get('scn')))
         elif k == 'world_created':
             tl.append(('world_created', e['id']))
         elif k == 'world_new_called':
@@ -306,6 +319,9 @@ def timeline(ex, M, ix, log):
             tl.append(('done', e['what']))
         elif k == 'find':
             tl.append(('find', e['step'], e['result']))
+        elif k == 'returned_outcome':
+            v = e['value']
+            tl.append(('notified', bool(z3.is_true(z3.simplify(ex.materialize(v.fields[(None, 3)])))), bool(z3.is_true(z3.simplify(ex.materialize(v.fields[(None, 4)]))))))
         elif k == 'sent' and not str(e['channel']).startswith('chan') and 'finished_sender' not in str(e['channel']):
             v = ex.materialize(e['value'])
             if isinstance(v, Adt) and v.discr is None and (None, 4) in v.fields:
